@@ -92,6 +92,35 @@ theorem from_to_atom (keep : Bool) (n : Nat) (a : Atom) (h : Nat) (row : ElemRow
 
 example : ∃ row, rowOf 6 = some row ∧ row.dist.any (·.1 == 13) = true := ⟨_, rfl, by decide⟩
 
+/-- the hydrogen clause at full strength: whatever RDKit does between the two conversions (`k` implicit hydrogens added by
+its valence model), the count comes back.  False — `to` does not forbid implicit hydrogens, so `k` can be positive
+(`[S]` → H2S, known_findings/C20.json; witness in `Findings/C20.lean`); what is proved is the case `k = 0`. -/
+def hydrogens_roundtrip_full : Prop :=
+  ∀ (keep : Bool) (n : Nat) (a : Atom) (h k : Nat) (ra : RAtom) (b : Atom) (pm : Nat), a.implH = some h →
+    toAtom keep n a = .ok ra → fromAtom { ra with implicitHs := k } = .ok (b, pm) → b.implH = some h
+
+/-- `from` always reads the hydrogen count as explicit + implicit -/
+theorem fromAtom_hydrogens (ra : RAtom) (b : Atom) (pm : Nat) (h : fromAtom ra = .ok (b, pm)) :
+    b.implH = some (ra.explicitHs + ra.implicitHs) := by
+  unfold fromAtom at h
+  split at h
+  · cases h
+  · split at h
+    · cases h
+    · split at h
+      · cases h
+      · simp only [Except.ok.injEq, Prod.mk.injEq] at h
+        obtain ⟨rfl, _⟩ := h
+        rfl
+
+theorem hydrogens_roundtrip_partial (keep : Bool) (n : Nat) (a : Atom) (h : Nat) (ra : RAtom) (b : Atom) (pm : Nat)
+    (hH : a.implH = some h) (hto : toAtom keep n a = .ok ra) (hfrom : fromAtom { ra with implicitHs := 0 } = .ok (b, pm)) :
+    b.implH = some h := by
+  rw [fromAtom_hydrogens _ b pm hfrom]
+  simp only [toAtom, hH, Except.ok.injEq] at hto
+  subst hto
+  simp
+
 /-- RDKit → chython → RDKit on one atom: element, charge, isotope and map number survive (the map number as
 `parsed_mapping`; `to` then writes the atom *number*); the total hydrogen count `explicit + implicit` is written back as
 explicit; the radical-electron count survives iff it is at most one -/
